@@ -99,7 +99,7 @@ Consume ==
        CASE e.k = "reset" -> ConfigMatches(e) /\ ResetAll
          [] e.k = "op" -> e.bad = 0 /\ Op(e)
          [] e.k = "end" -> /\ e.teardown = "ok"
-                           /\ (kd # {} => PrintT(<<"KNOWN_DEFECT", e.run, kd>>))
+                           /\ \A t \in kd : PrintT(<<"KNOWN_DEFECT", e.run, t>>)
                            /\ UNCHANGED vars
          [] OTHER -> FALSE
 
